@@ -88,7 +88,7 @@ func h10Parent(p int, fd uint8) (YangRange, []h10Iv) {
 // mm: 0 = no min/max keywords, 1 = min/max in every endpoint position.
 func H10a() {
 	k, p, mm := param("k"), param("p"), param("mm")
-	fd := uint8(concretize(symInt(param("fdlo"), param("fdhi"))))
+	fd := uint8(symRange(param("fdlo"), param("fdhi")))
 	h10Nums = nil
 	y, yiv := h10Parent(p, fd)
 	minV, maxV := yiv[0].lo, yiv[p-1].hi
